@@ -797,6 +797,48 @@ func ruleReaderExitStops(c *chk.Ctx, owner string) {
 		if !stopped && alreadyStopped(r.Block()) {
 			stopped = true
 		}
+		if !stopped && r.Parent() == reader {
+			// a shared exit (several breaks out of the loop, one unlock-and-return): no path from the
+			// function's entry reaches it without passing a call of the stop function or an edge on
+			// which the owner is already stopped
+			seen := map[*ssa.BasicBlock]bool{}
+			var free func(b *ssa.BasicBlock) bool
+			free = func(b *ssa.BasicBlock) bool {
+				if seen[b] {
+					return false
+				}
+				seen[b] = true
+				if alreadyStopped(b) {
+					return false
+				}
+				for _, ins := range b.Instrs {
+					if ci, ok := ins.(ssa.CallInstruction); ok {
+						if _, isDefer := ins.(*ssa.Defer); !isDefer {
+							for _, g := range calleesOf(c, ci) {
+								if g == stop {
+									return false
+								}
+							}
+						}
+					}
+					if ins == ssa.Instruction(r) {
+						return true
+					}
+				}
+				for _, sc := range b.Succs {
+					if alreadyStoppedConds(ir.EdgeConds(b, sc)) {
+						continue // the edge itself is the already-stopped outcome
+					}
+					if free(sc) {
+						return true
+					}
+				}
+				return false
+			}
+			if len(reader.Blocks) > 0 && !free(reader.Blocks[0]) {
+				stopped = true
+			}
+		}
 		if !stopped {
 			// the decision to exit may be made by a private helper that reports it as a boolean:
 			// every way the helper yields that value must follow a stop (or an already-stopped test)
